@@ -64,3 +64,9 @@ CONFIG = {
         "JSONVerifierSelf, which base64-decodes the SERVER NAME as a public key, so a restricted join can never verify there",
     ],
 }
+# statement-by-statement translation of small pure Go functions (tools/extract/trans.go -> lean/VGen/TransKeys.lean) and the
+# theorems that the translated definitions equal the model's, for all inputs (lean/VProps/TransKeys.lean)
+CONFIG["lean"] = list(CONFIG["lean"]) + ["VProps.TransKeys"]
+CONFIG["sources"] = list(CONFIG["sources"]) + ['VProps/TransKeys.lean', 'VModel/GoSem.lean']
+CONFIG["theorems"] = list(dict.fromkeys(list(CONFIG["theorems"]) + ['V.Trans.Keys.wasValidAt_eq_model', 'V.Trans.Keys.wasValidAt_spec']))
+CONFIG["trusted"] = list(CONFIG["trusted"]) + ["tools/extract/trans.go: the Go-to-Lean translation of the whitelisted functions and the Go semantics of lean/VModel/GoSem.lean (DESIGN.md §14)"]
